@@ -12,6 +12,9 @@ CONSTANTS
  DevDefineFirstOnly = FALSE
  DevPairsUntyped = FALSE
  DevTableMacrosKept = FALSE
+ DevDefineLazyCond = FALSE
+ DevDefineBlockDropped = FALSE
+ DevDefineInactiveKept = FALSE
 INVARIANT DomainOnce
 INVARIANT LookupAgrees
 INVARIANT Conforms
